@@ -325,6 +325,21 @@ pub fn run(out: &mut Out, tier: &str, rng: &mut Rng) {
             let request: Vec<String> = (0..n).filter(|i| subset >> i & 1 == 1).map(ren).collect();
             out.case("topo", json!({"graph": graph, "request": request}), json!({"n": n, "tag": "rand-special-labels"}));
         }
+        if k % 5 == 4 || k % 5 == 0 {
+            // names as projects have them: equal up to letter case, numbered (digit runs of any length), prefixes of one another
+            let pool = [
+                "Url", "URL", "url", "Page2", "Page10", "Page02", "Snapshot20240928120000", "Snapshot20240928120001", "V9Payload",
+                "V10Payload", "Id", "ID", "apiKey", "ApiKey", "T4294967296", "T4294967295", "T99999999999999999999999", "Page", "Pag",
+            ];
+            let ren = |i: usize| -> String { if i < pool.len() { pool[(k / 5 * 3 + i) % pool.len()].to_string() } else { name(i) } };
+            let mut graph: Vec<Value> = Vec::new();
+            for i in 0..n {
+                let deps: Vec<String> = (0..n).filter(|j| adj[i] >> j & 1 == 1).map(ren).collect();
+                graph.push(json!([ren(i), deps]));
+            }
+            let request: Vec<String> = (0..n).filter(|i| subset >> i & 1 == 1).map(ren).collect();
+            out.case("topo", json!({"graph": graph, "request": request}), json!({"n": n, "tag": "rand-project-names"}));
+        }
         if k % 4 == 1 {
             let nodes: Vec<String> = (0..n).map(name).collect();
             let es: Vec<Value> = edges.iter().map(|&(f, t)| json!([name(f), name(t)])).collect();
